@@ -4,6 +4,7 @@ import (
 	"fmt"
 	"os"
 	"os/exec"
+	"path/filepath"
 	"sort"
 	"strings"
 
@@ -51,6 +52,9 @@ func runGenProp(c *fw.Ctx, prop string) int {
 		c.Extra["corpus_packages_run"] = len(bc.gens) - len(unusable)
 		runGenerated(c, bc, prop)
 	}
+	if prop == "C09" {
+		raceReaders(c)
+	}
 	if c.Tier == "thorough" {
 		c.LeanChecker(prop)
 	}
@@ -58,6 +62,45 @@ func runGenProp(c *fw.Ctx, prop string) int {
 		append(trustedCommon, "protoc-gen-go / protoc-gen-gogo output and the runtimes' own codecs (used to build values and to read them back, never the generated methods)", "dynamicpb as the reference runtime (schema-only decoding)"),
 		[]string{"packages of the corpus that the generator cannot produce or that do not compile are reported under C16 and excluded here (listed in corpus_packages_excluded)",
 			"map iteration order: bytes are compared up to the order of map entries"})
+}
+
+// raceReaders: the concurrent-readers clause of C09 under the Go race detector — goroutines call
+// csproto.Size / csproto.Marshal and the generated Size / Marshal on messages nobody mutates (example
+// messages of the three runtimes incl. proto2 extensions, and runtime-only messages); every result must be
+// the bytes computed up front.
+func raceReaders(c *fw.Ctx) {
+	scratch, err := os.MkdirTemp(filepath.Join(fw.VerifDir, ".cache"), "c09-")
+	if err != nil {
+		return
+	}
+	defer os.RemoveAll(scratch)
+	bin := filepath.Join(scratch, "racecheck9")
+	build := exec.Command("go", "build", "-race", "-tags", "verif", "-o", bin, "./cmd/racecheck9")
+	build.Dir = filepath.Join(fw.VerifDir, "harness")
+	if out, err := build.CombinedOutput(); err != nil {
+		c.Notes = append(c.Notes, "race-enabled build not available: "+trunc(string(out), 200))
+		return
+	}
+	iters := "300"
+	if c.Tier == "thorough" {
+		iters = "6000"
+	}
+	for _, g := range []string{"2", "8", "32"} {
+		cmd := exec.Command(bin, g, iters)
+		cmd.Env = append(os.Environ(), "GORACE=halt_on_error=1 exitcode=66")
+		out, err := cmd.CombinedOutput()
+		desc := "racecheck9 goroutines=" + g + " iterations=" + iters
+		outcome := "clean"
+		if err != nil {
+			outcome = "failed"
+			sig, what := "readers/race-detector", "the Go race detector reported a data race between concurrent Size/Marshal calls on a message nobody mutates"
+			if !strings.Contains(string(out), "DATA RACE") {
+				sig, what = "readers/wrong-bytes", "a concurrent Size/Marshal call on a message nobody mutates returned something else than the bytes of its contents"
+			}
+			c.Violate(fw.Violation{Stream: "readers", Signature: sig, What: what, Input: desc, Got: trunc(string(out), 3000)})
+		}
+		c.Count("readers", desc, outcome, 1, true)
+	}
 }
 
 // ---------- C16 ----------
